@@ -2,6 +2,7 @@ package props
 
 import (
 	"context"
+	"encoding/json"
 	"fmt"
 	"runtime"
 	"sort"
@@ -15,7 +16,17 @@ import (
 	"github.com/frobnitzem/go-p9p/zzverif/vsync"
 )
 
-func init() { Registry["C20"] = c20 }
+func init() {
+	Registry["C20"] = c20
+	HistoryReplayers["C20"] = func(raw []byte) ([]explore.Finding, error) {
+		var h []FOp
+		if err := json.Unmarshal(raw, &h); err != nil {
+			return nil, err
+		}
+		vsync.SeqMode = true
+		return c20Exec(9)(h).Findings, nil
+	}
+}
 
 // spy is a Session that records every call and passes it on.
 type spy struct {
@@ -480,41 +491,8 @@ func c20(c *core.Ctx) {
 	}
 	ops := c20Ops(!c.Quick())
 	st := explore.BFS(explore.SeqSpec[FOp]{
-		Ops: ops,
-		Exec: func(hist []FOp) explore.SeqResult[FOp] {
-			r := newC20Run()
-			var res explore.SeqResult[FOp]
-			for i, o := range hist {
-				if o.Kind != "attach" && o.Ent >= len(r.live) {
-					res.Dead, res.Key, res.Outcome = true, "dead", "stale"
-					return res
-				}
-				fs, oc := r.do(o, hist[:i+1])
-				if oc == "not-in-alphabet" {
-					res.Dead, res.Key, res.Outcome = true, "skip", oc
-					return res
-				}
-				if i == len(hist)-1 {
-					res.Findings, res.Outcome = fs, oc
-				} else if len(fs) > 0 {
-					res.Dead, res.Key = true, "dead"
-					return res
-				}
-				if r.poison {
-					res.Dead = true
-					break
-				}
-			}
-			res.Key = r.key()
-			if len(hist) > 0 && !res.Dead && r.dev < dev && hist[len(hist)-1].Fail < 0 {
-				for i := 0; i < r.lastN; i++ {
-					v := hist[len(hist)-1]
-					v.Fail = i
-					res.Variants = append(res.Variants, v)
-				}
-			}
-			return res
-		},
+		Ops:      ops,
+		Exec:     c20Exec(dev),
 		MaxDepth: 14,
 		Workers:  runtime.NumCPU(),
 		Deadline: c.Deadline,
@@ -542,5 +520,43 @@ func c20(c *core.Ctx) {
 			hs = append(hs, o.String())
 		}
 		c.Violation(v.Sig, v.Msg, map[string]any{"history": v.Hist, "history_text": hs})
+	}
+}
+
+// c20Exec executes a history on a fresh client layer / session / mock stack.
+func c20Exec(dev int) func(hist []FOp) explore.SeqResult[FOp] {
+	return func(hist []FOp) explore.SeqResult[FOp] {
+		r := newC20Run()
+		var res explore.SeqResult[FOp]
+		for i, o := range hist {
+			if o.Kind != "attach" && o.Ent >= len(r.live) {
+				res.Dead, res.Key, res.Outcome = true, "dead", "stale"
+				return res
+			}
+			fs, oc := r.do(o, hist[:i+1])
+			if oc == "not-in-alphabet" {
+				res.Dead, res.Key, res.Outcome = true, "skip", oc
+				return res
+			}
+			if i == len(hist)-1 {
+				res.Findings, res.Outcome = fs, oc
+			} else if len(fs) > 0 {
+				res.Dead, res.Key = true, "dead"
+				return res
+			}
+			if r.poison {
+				res.Dead = true
+				break
+			}
+		}
+		res.Key = r.key()
+		if len(hist) > 0 && !res.Dead && r.dev < dev && hist[len(hist)-1].Fail < 0 {
+			for i := 0; i < r.lastN; i++ {
+				v := hist[len(hist)-1]
+				v.Fail = i
+				res.Variants = append(res.Variants, v)
+			}
+		}
+		return res
 	}
 }
